@@ -46,6 +46,15 @@ def generate(key, contract, registry, root=None):
             rep.vcs, rep.axioms, rep.assumed = ex.vcs, ex.axioms, sorted(set(ex.assumed))
     except KeyError as e:
         rep.unsupported = 'extraction failed: %s' % e
+    except RecursionError:
+        rep.unsupported = 'generator recursion limit (construct outside the modelled subset)'
+    except Exception as e:          # the generator met a construct it mis-models: undecided, never a verdict
+        import traceback
+        rep.unsupported = 'generator error %s: %s' % (type(e).__name__, str(e)[:200])
+        rep.trace = traceback.format_exc()[-1500:]
+        ex = getattr(rep, 'ex', None)
+        if ex is not None:
+            rep.vcs, rep.axioms, rep.assumed = ex.vcs, ex.axioms, sorted(set(ex.assumed))
     rep.gen_s = time.time() - t0
     return rep
 
